@@ -3,6 +3,7 @@
 use vstd::prelude::*;
 verus! {
 //@include inc/attr_abs.rs
+//@include prelude/std_misc.rs
 //@include inc/std_retain.rs
 
 // ---------------------------------------------------------------- stun-agent/src/message.rs
